@@ -517,9 +517,21 @@ package tlog
 //@   props C01 C13
 //@ func ParseTree
 //@   allocates
-//@   trusted "text codec (fmt/strconv/base64); here: a function of the text"
-//@   ensures err == nil ==> tree == PTREE(string(text))
-//@   props C01 C13
+//@   # (err == nil) == PTREEOK(string(text)), the accepting direction conjunct by conjunct
+//@   ensures [C09] rejects_only_bad_tree_text: err != nil ==> !PTREEOK(string(text))
+//@   ensures [C09] accepted_has_header: err == nil ==> strings.HasPrefix(string(text), "go.sum database tree\n") && strings.Count(string(text), "\n") >= 3 && len(text) <= 1000000
+//@   ensures [C09] accepted_has_canonical_size: err == nil ==> PINTOK(CUT0(CUTR(string(text)))) && PINT(CUT0(CUTR(string(text)))) >= 0 && CUT0(CUTR(string(text))) == DECS(PINT(CUT0(CUTR(string(text)))))
+//@   ensures [C09] accepted_has_32_byte_hash: err == nil ==> B64DOK(CUT0(CUTR(CUTR(string(text))))) && len(B64D(CUT0(CUTR(CUTR(string(text)))))) == 32
+//@   ensures [C09, C01, C13] parsed_tree: err == nil ==> tree == PTREE(string(text))
+//@   hint exit string(tree.Hash)
+//@   hint exit string(tree.Hash) == string(h)
+//@   hint string(treePrefix) == "go.sum database tree\n"
+//@   uses hash_bytes
+//@   props C01 C13 C09
+//@ func FormatTree
+//@   allocates
+//@   ensures [C09] tree_text: string(result) == TREETEXT(tree.N, tree.Hash)
+//@   props C09
 //@ func RecordHash
 //@   allocates
 //@   modifies ghost.WRITTEN
@@ -798,8 +810,6 @@ package tlog
 //@   hint occurs(t + "\n", "\n\n", len(t) - 1)
 //@   hint occurs(t + "\n", "\n\n", strings.Index(t + "\n", "\n\n"))
 //@   props C09
-//@ # no newline in d (a predicate symbol, so that lemmas can take it as a premise)
-//@ spec opaque func NONL(d string) bool = forall k int {d[k]} :: 0 <= k && k < len(d) ==> d[k] != 10
 //@ lemma decs_nonl(n int)
 //@   requires 0 - 9223372036854775808 <= n && n <= 9223372036854775807
 //@   ensures NONL(DECS(n))
@@ -872,4 +882,41 @@ package tlog
 //@ lemma hash_text_roundtrip(h Hash)
 //@   ensures PHOK(B64(string(h))) && HASHV(B64D(B64(string(h)))) == h
 //@   uses b64_roundtrip hash_bytes
+//@   props C09
+
+//@ # tree heads survive their text encoding: what FormatTree prints for a tree of non-negative size is accepted by
+//@ # ParseTree and decoded as that tree
+//@ spec func TREETEXT(n int, h Hash) string = "go.sum database tree" + "\n" + (DECS(n) + "\n" + (B64(string(h)) + "\n"))
+//@ # cutting a text at its first newline
+//@ lemma cut_line(d string, r string)
+//@   requires len(d) + len(r) < 4611686018427387000 && NONL(d)
+//@   ensures CUT0(d + "\n" + r) == d && CUTR(d + "\n" + r) == r
+//@   uses rec_first_newline cat_prefix cat_assoc
+//@   hint d + ("\n" + r)
+//@   trigger d + "\n" + r
+//@   props C09
+//@ lemma tree_text_header(n int, h Hash)
+//@   requires 0 <= n && n <= 9223372036854775807 && len(B64(string(h))) <= 1000
+//@   ensures strings.HasPrefix(TREETEXT(n, h), "go.sum database tree\n")
+//@   uses dec_parse prefix_ext
+//@   hint "go.sum database tree" + "\n" == "go.sum database tree\n"
+//@   props C09
+//@ lemma tree_text_count(n int, h Hash)
+//@   requires 0 <= n && n <= 9223372036854775807 && len(B64(string(h))) <= 1000
+//@   ensures strings.Count(TREETEXT(n, h), "\n") >= 3 && len(TREETEXT(n, h)) <= 1100
+//@   uses dec_parse count_cat
+//@   props C09
+//@ lemma tree_text_lines(n int, h Hash)
+//@   requires 0 <= n && n <= 9223372036854775807 && len(B64(string(h))) <= 1000
+//@   ensures CUT0(CUTR(TREETEXT(n, h))) == DECS(n)
+//@   ensures CUT0(CUTR(CUTR(TREETEXT(n, h)))) == B64(string(h))
+//@   uses dec_parse decs_nonl b64_no_newline cut_line
+//@   hint NONL("go.sum database tree")
+//@   hint NONL(DECS(n))
+//@   hint (B64(string(h)) + "\n") + ""
+//@   props C09
+//@ lemma tree_roundtrip(n int, h Hash)
+//@   requires 0 <= n && n <= 9223372036854775807 && len(B64(string(h))) <= 1000
+//@   ensures PTREEOK(TREETEXT(n, h)) && PTREE(TREETEXT(n, h)) == mk("Tree", n, h)
+//@   uses tree_text_lines tree_text_header tree_text_count dec_parse b64_roundtrip hash_bytes
 //@   props C09
